@@ -132,6 +132,7 @@ def check_property(prop, tier, seed, jobs, write_evidence=True):
 
     n_obl = n_proved = 0
     violations, undecided, errors, known_hits = [], [], [], []
+    known_obls = []
     by_backend = {}
     solver_s = 0.0
     samples = []
@@ -183,16 +184,27 @@ def check_property(prop, tier, seed, jobs, write_evidence=True):
         confirmed = [x for x in r.get("refutations", []) if x.get("failed")]
         unconfirmed = [x for x in r.get("refutations", []) if not x.get("failed")]
         handled = False
+        case_known = []
         for x in confirmed:
             k = match_known(known, prop, cname, x["failed"], x["args"])
             if k is not None:
                 known_hits.append((k, x))
+                case_known.append(k)
                 handled = True
                 continue
             violations.append({"contract": cname, "case": r["case"], "failed": x["failed"], "args": x["args"], "how": x["how"],
                                "outcome": x.get("outcome"), "unproved": [o["id"] for o in unproved]})
             handled = True
             break
+        if case_known and not any(v["contract"] == cname and v["case"] == r["case"] for v in violations):
+            # obligations that fail only inside the region of a listed finding: reported as KNOWN-FINDING, not counted as
+            # obligations of the proof (every other unproved obligation of the case stays undecided)
+            for o in unproved:
+                if any(o["id"].endswith(":" + k["clause"]) or k["clause"] in o["id"] for k in case_known):
+                    n_obl -= 1
+                    known_obls.append(o["id"])
+                else:
+                    undecided.append("%s (%s)" % (o["id"], o["verdict"]))
         if unproved and not handled:
             ids = [o["id"] for o in unproved]
             if unconfirmed and (any(i in baseline for i in ids) or any(x.get("finite") for x in unconfirmed)):
@@ -220,8 +232,11 @@ def check_property(prop, tier, seed, jobs, write_evidence=True):
     os.makedirs(os.path.join(HERE, "replays", prop), exist_ok=True)
     for old in os.listdir(os.path.join(HERE, "replays", prop)):
         os.remove(os.path.join(HERE, "replays", prop, old))
-    for k, x in known_hits[:20]:
-        print("KNOWN-FINDING: property=%s %s" % (prop, k["what"]))
+    seen_known = []
+    for k, x in known_hits:
+        if k["what"] not in seen_known:
+            seen_known.append(k["what"])
+            print("KNOWN-FINDING: property=%s %s" % (prop, k["what"]))
     # a known finding must still reproduce; listed ones that did not show up are only noted
     for i, v in enumerate(violations):
         safe = "".join(ch if ch.isalnum() or ch in "._-" else "_" for ch in v["contract"].split("::")[-1])
@@ -270,7 +285,8 @@ def check_property(prop, tier, seed, jobs, write_evidence=True):
                 "native_cover": {"%s %s" % (r["contract"].split("::")[-1], json.dumps(r["case"], sort_keys=True)): r.get("cover", {}) for r in results},
                 "bounded": bounded,
                 "undecided": undecided, "errors": errors[:20],
-                "known_findings": [k["what"] for k, _ in known_hits][:20],
+                "known_findings": seen_known,
+                "known_finding_obligations": sorted(set(known_obls)),
                 "not_decided": sorted(set(sum([c.not_decided for c in cs], []))),
                 "obligation_ids": all_obls,
                 "slowest_obligations": [{"obligation": i, "solver_s": s_} for s_, i in sorted(slow, reverse=True)[:8]],
